@@ -103,8 +103,9 @@ func NewMiningSetup(c *Concrete) (*MiningSetup, error) {
 		{0, "none", "wall", "wall"},
 		{1, "p2pkh", "near", "far"},
 		{2, "p2sh", "far", "near"},
-		{0, "p2pkh", "near", "near"},
-		{1, "p2wpkh", "far", "far"},
+		{0, "p2pkh", "near", "mtp"},
+		{1, "p2wpkh", "mtp", "mtp+1"},
+		{0, "none", "mtp-1", "far"},
 	}
 	return ms, nil
 }
@@ -121,8 +122,8 @@ func (ms *MiningSetup) cfg(c *Concrete) (defs, cfg string) {
 		cw = append(cw, fmt.Sprintf("%s |-> %d", k, ms.CbWeight[k]))
 	}
 	defs = fmt.Sprintf("U_Policies == << %s >>\nU_Variants == << %s >>\nU_CbWeight == [%s]\n", strings.Join(ps, ", "), strings.Join(vs, ", "), strings.Join(cw, ", "))
-	cfg = fmt.Sprintf(" TxWeight <- U_TxWeight\n TxSigCost <- U_TxSigCost\n Policies <- U_Policies\n Variants <- U_Variants\n CbWeight <- U_CbWeight\n H0 = %d\n HardDiff = %s\n CommitWeight = %d\n",
-		c.H0, tlaBool(c.BaseBits != c.Params.PowLimitBits), commitWeight())
+	cfg = fmt.Sprintf(" TxWeight <- U_TxWeight\n TxSigCost <- U_TxSigCost\n Policies <- U_Policies\n Variants <- U_Variants\n CbWeight <- U_CbWeight\n H0 = %d\n SubsidyInterval = %d\n HardDiff = %s\n CommitWeight = %d\n",
+		c.H0, c.Params.SubsidyReductionInterval, tlaBool(c.BaseBits != c.Params.PowLimitBits), commitWeight())
 	return
 }
 
@@ -186,6 +187,12 @@ func (e *Env) clockAt(class string) (time.Time, error) {
 		return time.Time{}, err
 	}
 	switch class {
+	case "mtp-1":
+		return best.MedianTime.Add(-time.Second), nil
+	case "mtp":
+		return best.MedianTime, nil
+	case "mtp+1":
+		return best.MedianTime.Add(time.Second), nil
 	case "near":
 		return hdr.Timestamp.Add(time.Minute), nil
 	case "wall":
@@ -282,6 +289,18 @@ func (tc *TemplateChecker) observe(e *Env, vi int) (string, map[string]any) {
 		cbsig = -1
 	}
 	bits0 := e.bitsClass(t.Block.Header.Bits)
+	mtp := e.Chain.BestSnapshot().MedianTime
+	toff := func(ts time.Time) int64 {
+		d := int64(ts.Sub(mtp) / time.Second)
+		if d > 1000 {
+			d = 1000
+		}
+		if d < -1000 {
+			d = -1000
+		}
+		return d
+	}
+	toff0, toff1 := toff(t.Block.Header.Timestamp), int64(0)
 	v1 := e.validateSolved(t.Block, t.Height)
 	// UpdateBlockTime (after the clock moved) / UpdateExtraNonce on copies
 	e.TS.Set(t1)
@@ -292,6 +311,7 @@ func (tc *TemplateChecker) observe(e *Env, vi int) (string, map[string]any) {
 		v2 = err
 	} else {
 		bits1 = e.bitsClass(m2.Header.Bits)
+		toff1 = toff(m2.Header.Timestamp)
 		v2 = e.validateSolved(m2, t.Height)
 	}
 	m3 := t.Block.Copy()
@@ -303,7 +323,7 @@ func (tc *TemplateChecker) observe(e *Env, vi int) (string, map[string]any) {
 			v3 = fmt.Errorf("UpdateExtraNonce did not change the coinbase script")
 		}
 	}
-	desc := map[string]any{"variant": v, "policy": pol + 1, "bits": bits0, "bits_after_update": bits1, "coinbase_sigop_cost": cbsig, "selected": sel, "fees": t.Fees, "sigops": t.SigOpCosts, "coinbase_value": cbv, "weight": weight,
+	desc := map[string]any{"variant": v, "policy": pol + 1, "bits": bits0, "bits_after_update": bits1, "time_minus_mtp": toff0, "time_minus_mtp_after_update": toff1, "coinbase_sigop_cost": cbsig, "selected": sel, "fees": t.Fees, "sigops": t.SigOpCosts, "coinbase_value": cbv, "weight": weight,
 		"has_commitment": hasCommit, "commitment_ok": commitOK, "foreign_tx": foreign}
 	for k, err := range map[string]error{"valid": v1, "valid_after_time": v2, "valid_after_nonce": v3} {
 		if err != nil {
@@ -313,8 +333,8 @@ func (tc *TemplateChecker) observe(e *Env, vi int) (string, map[string]any) {
 	if selfTest == "tmpl-fee" && len(t.Fees) > 1 {
 		t.Fees[1]++
 	}
-	rec := fmt.Sprintf("[var |-> %d, failed |-> FALSE, cbsig |-> %d, paid |-> %s, bits0 |-> %q, bits1 |-> %q, sel |-> %s, fees |-> %s, sigops |-> %s, cbextra |-> %d, weight |-> %d, sigtotal |-> %d, hascommit |-> %s, commitok |-> %s, valid |-> %s, validtime |-> %s, validnonce |-> %s, height |-> %d]",
-		vi+1, cbsig, b2s(paid), bits0, bits1, seqInts(sel), seqInts(t.Fees), seqInts(t.SigOpCosts), cbv-blockchain.CalcBlockSubsidy(t.Height, c.Params), weight, sigtotal, b2s(hasCommit), b2s(commitOK), b2s(v1 == nil), b2s(v2 == nil), b2s(v3 == nil), t.Height)
+	rec := fmt.Sprintf("[var |-> %d, failed |-> FALSE, cbsig |-> %d, paid |-> %s, bits0 |-> %q, bits1 |-> %q, toff0 |-> %d, toff1 |-> %d, cbhi |-> %d, cblo |-> %d, sel |-> %s, fees |-> %s, sigops |-> %s, weight |-> %d, sigtotal |-> %d, hascommit |-> %s, commitok |-> %s, valid |-> %s, validtime |-> %s, validnonce |-> %s, height |-> %d]",
+		vi+1, cbsig, b2s(paid), bits0, bits1, toff0, toff1, cbv/1000000, cbv%1000000, seqInts(sel), seqInts(t.Fees), seqInts(t.SigOpCosts), weight, sigtotal, b2s(hasCommit), b2s(commitOK), b2s(v1 == nil), b2s(v2 == nil), b2s(v3 == nil), t.Height)
 	return rec, desc
 }
 
